@@ -142,12 +142,14 @@ def accepted_prefix(op):
     return prims[:head + op["veto_at"]], "value"
 
 
-MODEL_STRIP = ("create", "asset", "deleter", "stored_only", "proxy")
+MODEL_STRIP = ("create", "asset", "deleter", "stored_only", "proxy", "named", "veto_at")
 
 
 def model_apply(drv, op, extra=None):
     """send an op (or the accepted prefix of a compound constructor) to the model driver; returns
     {"res": outcome, "events": announcements of everything that took effect, "prims": the primitive calls sent}"""
+    if op["t"] == "setTopDef" and op.get("named") and op.get("veto"):
+        return {"res": "value", "events": [], "prims": []}      # refused by the naming rules: nothing happens
     prims, outcome = accepted_prefix(op)
     events = []
     res = outcome
@@ -225,6 +227,14 @@ def execute(world, op, rng=None, tok=None):
     t = op["t"]
     W = world
     g = W.get
+    if t == "setTopDef" and op.get("named"):
+        try:
+            n = g("netlist", op["n"])
+            n.set_top_instance(g("definition", op["d"]), instance_name=tok["name"])
+            W.reg("instance", op["i"], n.top_instance)
+            return "ok"
+        except Exception as e:  # noqa: BLE001
+            return exc_class(e)
     if op.get("veto"):
         return execute_veto(world, op, tok)
     if t in COMPOUND:
@@ -413,6 +423,17 @@ def prepare(world, op):
     """Harness-side arrangement done BEFORE the 'before' snapshot: for an add that the namespace
     manager must veto, give one sibling a unique name and (for a non-create add of an orphan) give
     the orphan the same name.  Returns a cleanup token."""
+    if op["t"] == "setTopDef" and op.get("named"):
+        world.get("netlist", op["n"])          # operands exist before the call (not created inside the snapshot window)
+        d = world.get("definition", op["d"])
+        if not op.get("veto"):
+            return {"name": "tw_%d" % op["i"], "orphan": None}
+        sibs = [x for x in (d.library.definitions if d.library is not None else []) if x is not d]
+        if not sibs:
+            raise RuntimeError("executor: veto requested but the definition has no sibling")
+        if sibs[0].name is None:
+            sibs[0].name = "definition_%s" % world.label(sibs[0], "definition")
+        return {"name": sibs[0].name, "orphan": None}
     if not op.get("veto"):
         return None
     W = world
